@@ -653,6 +653,49 @@ impl<P: Prims> HsOps<P> {
         fixed + plen
     }
 
+    /// Offset of the first encrypted field of message m (None if the message has none): every byte from there
+    /// on belongs to an encrypted field or its tag.
+    pub fn first_encrypted_offset(pat: Pat, psk_mask: u16, m: usize) -> Option<usize> {
+        let d = pat.def();
+        let psk = psk_mask != 0;
+        let mut has_k = false;
+        let mut mi = 0;
+        while mi <= m {
+            let mut len = 0;
+            if mi == 0 && (psk_mask & 1) != 0 {
+                has_k = true;
+            }
+            let toks = d.msgs[mi];
+            let mut t = 0;
+            while t < toks.len() {
+                match toks[t] {
+                    E => {
+                        len += P::PL;
+                        if psk {
+                            has_k = true;
+                        }
+                    },
+                    S => {
+                        if has_k && mi == m {
+                            return Some(len);
+                        }
+                        len += P::PL + if has_k { TAGLEN } else { 0 };
+                    },
+                    _ => has_k = true,
+                }
+                t += 1;
+            }
+            if (psk_mask & (1 << (mi + 1))) != 0 {
+                has_k = true;
+            }
+            if mi == m {
+                return if has_k { Some(len) } else { None };
+            }
+            mi += 1;
+        }
+        None
+    }
+
     /// (fixed overhead of message m including the payload tag, whether the payload is encrypted)
     pub fn overhead(pat: Pat, psk_mask: u16, m: usize) -> (usize, bool) {
         let d = pat.def();
